@@ -14,6 +14,9 @@ for d in $(ls -d "$HERE"/seeded/*/ | xargs -n1 basename); do
     C12-r2-1) extra="C14";; C14-r2-1) extra="C12";; C01-r2-2) extra="C02";; C01-r2-3) extra="C16";; C04-r2-2) extra="C05 C11";;
     C06-r2-1) extra="C08";; C06-r2-2) extra="C07";; C07-r2-1) extra="C06";; C13-r2-2) extra="C11 C05";; C02-r2-2) extra="C01";; C02-r2-3) extra="C03";;
     C16-r2-3) extra="C15";; C10-r2-2) extra="C11";; C07-r2-2) extra="C09";;
+    C01-r3-1) extra="C07";; C02-r3-1|C02-r3-2) extra="C01";; C03-r3-1) extra="C09";; C10-r3-2) extra="C02";; C05-r3-1) extra="C11";;
+    C07-r3-1) extra="C06";; C07-r3-2) extra="C09";; C09-r3-1) extra="C08";; C12-r3-2|C14-r3-2) extra="C12 C14";; C17-r3-2) extra="C10";;
+    C18-r3-2) extra="C06";; C08-r3-2) extra="C03";; C11-r3-1|C11-r3-2) extra="C10";;
   esac
   LINES_MAX=3 tools/try_patch.sh "$HERE/seeded/$d/patch.diff" $id $extra 2>&1 | grep "^RESULT" | while read -r _ chk ex rest; do
     sigs=$(echo "$rest" | grep -o "signature=[^ ]*" | sed 's/signature=//' | tr '\n' ' ')
